@@ -236,7 +236,8 @@ def compare_estimates(a, b, what, viol, cnt, _cond=None):
             cnt["updates_too_ill_conditioned_to_judge"] = cnt.get("updates_too_ill_conditioned_to_judge", 0) + 1
             continue
         tol_x = 1e-9 * np.maximum(np.abs(ra["est_x"]), 1.0) + amp * np.maximum(ra["dx"], rb["dx"])
-        tol_p = 1e-9 * float(np.max(np.abs(ra["est_p"]))) + amp * max(ra["dp"], rb["dp"])
+        # (the posterior is formed as P - K S K': when an update shrinks a large prior by orders of magnitude the subtraction keeps only eps * |prior|)
+        tol_p = 1e-9 * float(np.max(np.abs(ra["est_p"]))) + amp * max(ra["dp"], rb["dp"]) + 100 * EPS * float(np.max(np.abs(ra["pred_p"])))
         rx = float(np.max(np.abs(ra["est_x"] - rb["est_x"]) / tol_x))
         rp = float(np.max(np.abs(ra["est_p"] - rb["est_p"])) / max(tol_p, 1e-300))
         mx = max(mx, rx, rp)
